@@ -1,11 +1,12 @@
 import CkbVerif.Driver.Util
 import CkbVerif.Model.Since
 import CkbVerif.Model.Tx
+import CkbVerif.Model.TxRules
 
 /-! Line-protocol driver for C04 (protocol: harness/n04/src/c04.rs). Sub-modes: `time`, `resolve`,
 `cap`, `node`. -/
 namespace CkbVerif.Driver.C04
-open CkbVerif.Driver CkbVerif.Since CkbVerif.Tx
+open CkbVerif.Driver CkbVerif.Since CkbVerif.Tx CkbVerif.TxRules
 
 /-! ### parsing helpers -/
 
@@ -92,6 +93,14 @@ def stepTime (s : TimeSt) (ts : List String) : TimeSt × String :=
     | some env, some ins, some deps => (s, showV (timeRelativeVerify s.cfg s.db env ins deps))
     | _, _, _ => (s, "bad-op")
   | _ => (s, "bad-op")
+
+/-- `node`: the `time` protocol plus harness-only scenario lines (`scn …`, echoed as `ok`): the node
+stream reports, per `tx` line, the verdict class the real node / pool / direct verifier gave at the
+commit position described by the preceding `env` line -/
+def stepNode (s : TimeSt) (ts : List String) : TimeSt × String :=
+  match ts with
+  | "scn" :: _ => (s, "ok")
+  | _ => stepTime s ts
 
 /-! ### `resolve` -/
 
@@ -190,6 +199,122 @@ def stepCap (s : Unit) (ts : List String) : Unit × String :=
       let exempt := ins.isEmpty || ins.any (·.2)
       (s, showCapV (capacityVerify exempt (ins.map (·.1)) outs))
     | _, _ => (s, "bad-op")
+  | ["occ", l, t, dc] =>
+    -- `CellOutput::occupied_capacity(Capacity::shannons(dc))` for lock args l, type args t
+    match parseNat? l, (if t = "n" then some none else (parseNat? t).map some), parseNat? dc with
+    | some l, some t, some dc =>
+      (s, match occupied ⟨0, l, t, 0⟩ dc with | some v => s!"some {v}" | none => "overflow")
+    | _, _, _ => (s, "bad-op")
+  | ["lack", c, l, t, dc] =>
+    -- `is_lack_of_capacity(Capacity::shannons(dc))` of an output with capacity c
+    match parseNat? c, parseNat? l, (if t = "n" then some none else (parseNat? t).map some), parseNat? dc with
+    | some c, some l, some t, some dc =>
+      (s, match occupied ⟨c, l, t, 0⟩ dc with
+        | some v => if v > c then "true" else "false"
+        | none => "overflow")
+    | _, _, _, _ => (s, "bad-op")
+  | ["bytes", n] =>
+    match parseNat? n with
+    | some n => (s, match capBytes n with | some v => s!"some {v}" | none => "overflow")
+    | none => (s, "bad-op")
+  | _ => (s, "bad-op")
+
+/-! ### `rules` -/
+
+def dotNats? (s : String) : Option (List Nat) := (s.splitOn ".").mapM parseNat?
+
+def parseOutShape? (s : String) : Option OutShape :=
+  match s.splitOn "." with
+  | [lh, la, th, ta] => do
+    let lh ← parseNat? lh
+    let la ← parseNat? la
+    let ta ← parseNat? ta
+    if th = "n" then pure ⟨⟨lh, la⟩, none⟩
+    else do
+      let th ← parseNat? th
+      pure ⟨⟨lh, la⟩, some ⟨th, ta⟩⟩
+  | _ => none
+
+def showNcV : NcV → String
+  | .ok => "ok"
+  | .mismatchedVersion => "mismatched-version"
+  | .exceededMaximumBlockBytes => "exceeded-max-block-bytes"
+  | .emptyInputs => "empty-inputs"
+  | .emptyOutputs => "empty-outputs"
+  | .duplicateCellDeps tx idx => s!"duplicate-cell-deps {tx}.{idx}"
+  | .duplicateHeaderDeps h => s!"duplicate-header-deps {h}"
+  | .outputsDataLengthMismatch => "outputs-data-length-mismatch"
+  | .hashTypeNotPermitted v => s!"hash-type-not-permitted {v}"
+  | .invalidHashType v => s!"invalid-hash-type {v}"
+  | .exceededTransactionSizeLimit => "exceeded-tx-size-limit"
+  | .cellbaseLike => "cellbase-like"
+
+def parseDaoPair? (s : String) : Option DaoPair :=
+  match s.splitOn "." with
+  | [i, o, d, b, la, lb] => do
+    let i ← parseNat? i
+    let o ← parseNat? o
+    let d ← (if d = "n" then some none else if d = "z" then some (some true) else if d = "x" then some (some false) else none)
+    let b ← (if b = "n" then some none else (parseNat? b).map some)
+    let la ← parseNat? la
+    let lb ← parseNat? lb
+    pure ⟨i != 0, o != 0, d, b, scriptSize ⟨0, la⟩, scriptSize ⟨0, lb⟩⟩
+  | _ => none
+
+/-- an input of a `ctx` line: (fee view, capacity, uses the DAO type script) -/
+def parseCtxIn? (s : String) : Option (FeeInput × Nat × Bool) :=
+  let body := (s.drop 1).toString
+  if s.startsWith "p" then (parseNat? body).map fun c => (.plain c, c, false)
+  else if s.startsWith "d" then (parseNat? body).map fun c => (.plain c, c, true)
+  else if s.startsWith "m" then (parseNat? body).map fun c => (.malformed, c, true)
+  else if s.startsWith "w" then
+    match dotNats? body with
+    | some [c, dar, war, ord] =>
+      -- the withdrawing cell of the harness: lock args 0, DAO type script args 0, 8 data bytes
+      let occ := (capBytes 8).bind fun dc => occupied ⟨c, 0, some 0, 8⟩ dc
+      some (.withdraw c occ dar war (ord != 0), c, true)
+    | _ => none
+  else none
+
+def stepRules (s : Unit) (ts : List String) : Unit × String :=
+  match ts with
+  | ["nc", mb, ver, ins, deps, hd, outs, datas, wits] =>
+    match parseNat? mb, parseNat? ver, (splitList ins).mapM dotNats?, (splitList deps).mapM dotNats?,
+        parseNatList? hd, (splitList outs).mapM parseOutShape?, parseNatList? datas, parseNatList? wits with
+    | some mb, some ver, some ins, some deps, some hd, some outs, some datas, some wits =>
+      let ins? := ins.mapM fun l => match l with | [a, b] => some (a, b) | _ => none
+      let deps? := deps.mapM fun l => match l with | [a, b, c] => some (⟨a, b, c⟩ : DepShape) | _ => none
+      match ins?, deps? with
+      | some ins, some deps =>
+        let t : NcTx := ⟨ver, ins, deps, hd, outs, datas, wits⟩
+        (s, s!"{showNcV (nonContextual Gen.Tx.TX_VERSION mb t)} size={sizeInBlock t}")
+      | _, _ => (s, "bad-op")
+    | _, _, _, _, _, _, _, _ => (s, "bad-op")
+  | ["vm", a, b, ph, ep, ht] =>
+    match parseNat? a, parseNat? b, parseNat? ep, parseNat? ht with
+    | some a, some b, some ep, some ht =>
+      (s, match selectVersion a b (ph = "c") ep ht with
+        | .v n => s!"v{n}"
+        | .invalidVmVersion n => s!"invalid-vm-version {n}"
+        | .invalidHashType => "invalid-hash-type")
+    | _, _, _, _ => (s, "bad-op")
+  | ["dao", start, pairs] =>
+    match parseNat? start, (splitList pairs).mapM parseDaoPair? with
+    | some start, some pairs =>
+      (s, match daoScriptSize start 0 pairs with | none => "ok" | some i => s!"dao-lock-size-mismatch {i}")
+    | _, _ => (s, "bad-op")
+  | ["ctx", ins, outs] =>
+    match (splitList ins).mapM parseCtxIn?, parseNatList? outs with
+    | some ins, some outs =>
+      let exempt := ins.isEmpty || ins.any (·.2.2)
+      let outputs : List Output := outs.map fun c => ⟨c, 0, none, 0⟩
+      match capacityVerify exempt (ins.map (·.2.1)) outputs with
+      | .ok =>
+        (s, match transactionFee (ins.map (·.1)) outs with
+          | some f => s!"ok {f}"
+          | none => "fee-error")
+      | v => (s, s!"cap {showCapV v}")
+    | _, _ => (s, "bad-op")
   | _ => (s, "bad-op")
 
 def main (args : List String) : IO UInt32 :=
@@ -197,6 +322,8 @@ def main (args : List String) : IO UInt32 :=
   | ["time"] => runLines ({} : TimeSt) stepTime
   | ["resolve"] => runLines ({} : ResSt) stepResolve
   | ["cap"] => runLines () stepCap
+  | ["node"] => runLines ({} : TimeSt) stepNode
+  | ["rules"] => runLines () stepRules
   | _ => do
     IO.eprintln "C04: expected sub-mode time|resolve|cap"
     return 2
